@@ -1,6 +1,32 @@
 """C06 - decided on the request-level model: proofs in coq/theories/Props/C06.v, predicate p_c06
-(coq/theories/Spec/Preds.v) evaluated on the implementation's observations, projection facets 14,16,151,154."""
+(coq/theories/Spec/Preds.v) evaluated on the implementation's observations, projection facets 14,16,151,154;
+plus the fault enumeration of the recovery flows and of the administrative update (a password change that is REPORTED
+as done has revoked the tokens, whatever failed on the way)."""
+import os
+import vlib
 import worldprop
 
-P = worldprop.WorldProp("C06", "p_c06", [('password', 200, 4000), ('tokens', 100, 1000), ('remember', 100, 1000)], {14,16,151,154})
+SIZES = dict(password=(200, 4000), tokens=(100, 1000), remember=(100, 1000))
+
+
+class C06(worldprop.WorldProp):
+    def gen_fn(self, binp, prof, thorough):
+        if prof != "faults-recover":
+            n = SIZES[prof]
+            return worldprop.generate(binp, prof, n[1] if thorough else n[0], 60 if thorough else 30, vlib.seed(), "C06_" + prof)
+        outs, errs = [], []
+        for only in ("recover-end", "updpw"):
+            path = os.path.join(vlib.CACHE, "faults_c06.jsonl")
+            args = ["faults", "-seed", str(vlib.seed()), "-only", only, "-out", path] + (["-pairs"] if thorough else [])
+            rc, log = vlib.run_harness(args, binp=binp, timeout=3000)
+            if rc == 0 and os.path.exists(path):
+                outs.extend(vlib.read_jsonl(path))
+            else:
+                errs.append(log[-1500:])
+            if os.path.exists(path):
+                os.remove(path)
+        return outs, errs
+
+
+P = C06("C06", "p_c06", [(k, v[0], v[1]) for k, v in SIZES.items()] + [("faults-recover", 0, 0)], {14, 16, 151, 154})
 run, replay = P.run, P.replay
